@@ -44,16 +44,20 @@ def build_graph(src, cfg, mask, k, t):
     return res
 
 
-def observe(g, start, msg, mode, bound):
+def mix_table(n):
+    return [[1, 3, 0, 2] if u % 2 == 0 else [3, 0, 2, 1] for u in range(n)]          # transport of MixTbl
+
+
+def observe(g, start, msg, mode, bound, tk="id"):
     """One case: encode on the generated graph, then ask the real filter about every window and the whole strand."""
     flt, gen_out, verts, acc = build_graph(g["src"], g["cfg"], g["mask"], g["k"], g["t"])
-    c = {"start": start, "msg": msg, "mode": mode, "gen_out": gen_out, "verts": verts, "enc_out": "not-run", "strand": [], "ticks": 0,
+    c = {"start": start, "msg": msg, "mode": mode, "tk": tk, "gen_out": gen_out, "verts": verts, "enc_out": "not-run", "strand": [], "ticks": 0,
          "fv_windows": [], "fv_strand": True, "fv_full": True, "ilive": []}
     if acc is None:
         return c
     c["ilive"] = impl.live_of(acc)
     nv = sum(1 for L in c["ilive"] if L)
-    e = cf.run_encode(acc, start, msg, mode, 0, None, budget=len(msg) * nv + 2)
+    e = cf.run_encode(acc, start, msg, mode, 0, mix_table(len(acc)) if tk == "mix" else None, budget=len(msg) * nv + 2)
     c["enc_out"], c["strand"], c["ticks"] = e["enc_out"], e["strand"], e["ticks"]
     if e["enc_out"] == "ok":
         k = g["k"]
@@ -69,7 +73,7 @@ def _obs_rec(rec):
     g = {"src": rec["src"], "cfg": rec["cfg"], "mask": rec["mask"], "k": rec["cfg"]["k"], "t": rec["t"]}
     if rec["src"] == "cfg" and not c12.float_guard(rec["cfg"]["k"], rec["cfg"]["gc"]):
         return None
-    c = observe(g, rec["start"], rec["msg"], rec["mode"], rec["bound"])
+    c = observe(g, rec["start"], rec["msg"], rec["mode"], rec["bound"], rec.get("tk", "id"))
     c["spec_strand"] = rec["strand"]
     return c
 
@@ -141,7 +145,7 @@ def judge(ctx, graphs, cases, mine, name, tag):
         ctx.judged()
         g = graphs[c["g"] - 1]
         if c["msg"]:
-            ctx.mark(tag + json.dumps([c["g"], c["start"], c["msg"][:64], len(c["msg"]), c["mode"]]))
+            ctx.mark(tag + json.dumps([c["g"], c["start"], c["msg"][:64], len(c["msg"]), c["mode"], c.get("tk", "id")]))
         for cl in v:
             if cl.startswith("machinery:"):
                 raise Machinery("trace spec inconsistency: %s" % cl)
